@@ -56,6 +56,18 @@ def inputs(seed, repo):
         yield f"rtf:hostile-escape-{i}", b"{\\rtf1\\ansi " + body + b"}"
     yield "zip:empty", b"PK\x05\x06" + b"\0" * 18
     yield "mbox:blank", b"\n\n"
+    # well-formed mail shell, hostile header / part content (what the lenient mail parsers choke on)
+    head = b"From: a@example.com\nTo: b@example.com\nDate: Sat, 27 Dec 2025 10:00:00 +0000\nMessage-ID: <1@example.com>\n"
+    for i, subj in enumerate((b"caf\xe9 \xff\xfe", b"=?utf-8?b?////?=", b"=?x-unknown-charset?q?abc?=", b"=?utf-8?q?=ZZ?= \x00")):
+        yield f"mbox:hostile-subject-{i}", b"From a@example.com Sat Dec 27 10:00:00 2025\n" + head + b"Subject: " + subj + b"\n\nbody\n"
+        yield f"eml:hostile-subject-{i}", head + b"Subject: " + subj + b"\n\nbody\n"
+    yield "mbox:8bit-message-id", b"From a@example.com Sat Dec 27 10:00:00 2025\nFrom: a@example.com\nSubject: s\nMessage-ID: <\xff\xe9@x>\n\nbody\n"
+    for i, (cte, payload) in enumerate(((b"base64", b"A"), (b"base64", b"QUJDRA=x=\n====A"), (b"quoted-printable", b"=ZZ=\n=4"), (b"x-unknown", b"data"), (b"base64", b"\xff\xfe\x00"))):
+        part = (b"--B\nContent-Type: text/plain\n\nhello\n--B\nContent-Type: application/octet-stream; name=\"a.bin\"\n"
+                b"Content-Disposition: attachment; filename=\"a.bin\"\nContent-Transfer-Encoding: " + cte + b"\n\n" + payload + b"\n--B--\n")
+        mime = head + b"Subject: s\nMIME-Version: 1.0\nContent-Type: multipart/mixed; boundary=\"B\"\n\n" + part
+        yield f"eml:hostile-attachment-{i}", mime
+        yield f"mbox:hostile-attachment-{i}", b"From a@example.com Sat Dec 27 10:00:00 2025\n" + mime
     files = sorted(glob.glob(os.path.join(repo, "sharepoint2text/tests/resources/*/*")))
     files = [f for f in files if os.path.isfile(f) and os.path.getsize(f) < 400_000]
     rnd.shuffle(files)
@@ -130,6 +142,260 @@ def hang_search(obligation, repo):
     return {"reproduced": False, "note": f"{tried} annotation-driven calls of {q} returned"}
 
 
+# ------------------------------------------------------- 7z: valid shell, hostile header content --
+def _7z_number(v):
+    for k in range(8):
+        if v < (1 << (7 * (k + 1))):
+            first = ((0xFF << (8 - k)) & 0xFF) | (v >> (8 * k))
+            return bytes([first]) + (v & ((1 << (8 * k)) - 1)).to_bytes(k, "little")
+    return b"\xff" + v.to_bytes(8, "little")
+
+
+def _7z_wrap(header, body=b""):
+    """signature header with correct CRCs around an arbitrary header block: the parser accepts the shell and walks the content"""
+    import struct
+    import zlib
+    start = struct.pack("<QQI", len(body), len(header), zlib.crc32(header) & 0xFFFFFFFF)
+    return b"7z\xbc\xaf\x27\x1c\x00\x04" + struct.pack("<I", zlib.crc32(start) & 0xFFFFFFFF) + start + body + header
+
+
+def _7z_header(names_block=None, names_size=None, n_files=2, props=None, with_streams=True):
+    """kHeader [MainStreamsInfo (one copy-coded folder)] FilesInfo(names [, further properties]) kEnd"""
+    import struct
+    import zlib
+    body = b"hello 7z\n" if with_streams else b""
+    h = bytearray(b"\x01")
+    if with_streams:
+        h += b"\x04" + b"\x06" + _7z_number(0) + _7z_number(1) + b"\x09" + _7z_number(len(body)) + b"\x00"
+        h += b"\x07\x0b" + _7z_number(1) + b"\x00" + _7z_number(1) + b"\x01\x00" + b"\x0c" + _7z_number(len(body)) + b"\x00"
+        h += b"\x08\x0a\x01" + struct.pack("<I", zlib.crc32(body) & 0xFFFFFFFF) + b"\x00\x00"
+    h += b"\x05" + _7z_number(n_files)
+    if n_files >= 2:
+        h += b"\x0e\x01" + bytes([0x40])           # second entry has no stream (a directory)
+    if names_block is None:
+        names_block = b"".join(n.encode("utf-16-le") + b"\x00\x00" for n in (["a.txt", "dir", "b.txt", "c.txt"][:n_files]))
+    blk = b"\x00" + names_block
+    h += b"\x11" + _7z_number(len(blk) if names_size is None else names_size) + blk
+    for (pid, payload, size) in (props or ()):
+        h += bytes([pid]) + _7z_number(len(payload) if size is None else size) + payload
+    h += b"\x00\x00"
+    return bytes(h), body
+
+
+def sevenzip_cases():
+    """(label, bytes): every case has a VALID signature header (CRCs recomputed), so SevenZipReader walks the hostile header"""
+    u = lambda s: s.encode("utf-16-le")
+    h, body = _7z_header()
+    yield "7z:valid", _7z_wrap(h, body)
+    for with_streams in (False, True):
+        tag = "" if with_streams else "-headeronly"
+        mk = lambda **kw: _7z_wrap(*_7z_header(with_streams=with_streams, **kw))
+        yield f"7z:names-unterminated{tag}", mk(names_block=u("a.txt"), n_files=1)
+        yield f"7z:names-last-unterminated{tag}", mk(names_block=u("a.txt") + b"\x00\x00" + u("dir"))
+        yield f"7z:names-odd-length{tag}", mk(names_block=u("a.txt") + b"\x00", n_files=1)
+        yield f"7z:names-empty-block{tag}", mk(names_block=b"", n_files=1)
+        yield f"7z:names-fewer-than-files{tag}", mk(names_block=u("a") + b"\x00\x00", n_files=4)
+        yield f"7z:names-size-too-large{tag}", mk(names_size=200)
+        yield f"7z:names-size-zero{tag}", mk(names_size=0)
+        yield f"7z:names-size-huge{tag}", mk(names_size=(1 << 62))
+        yield f"7z:names-single-nul-bytes{tag}", mk(names_block=b"\x00" * 7, n_files=3)
+        yield f"7z:names-lone-surrogates{tag}", mk(names_block=b"\x00\xd8" * 5 + b"\x00\x00", n_files=1)
+        for pid in (0x0e, 0x0f, 0x10, 0x12, 0x13, 0x14, 0x15, 0x19, 0x18, 0x77):
+            yield f"7z:prop-{pid:02x}-empty{tag}", mk(props=[(pid, b"", None)])
+            yield f"7z:prop-{pid:02x}-size-beyond-end{tag}", mk(props=[(pid, b"\x01", 90)])
+            yield f"7z:prop-{pid:02x}-all-ones{tag}", mk(props=[(pid, b"\xff" * 9, None)])
+        yield f"7z:files-127{tag}", mk(n_files=127, names_block=u("a") + b"\x00\x00")
+        yield f"7z:files-0{tag}", mk(n_files=0, names_block=b"")
+    # structural mutants of the valid header: every truncation, and every byte set to 00 / 7f / ff / +1 (CRCs stay valid)
+    for k in range(1, len(h)):
+        yield f"7z:header-truncated-at-{k}", _7z_wrap(h[:k], body)
+    for k in range(len(h)):
+        for v in (0x00, 0x7F, 0xFF, (h[k] + 1) & 0xFF):
+            if v != h[k]:
+                b = bytearray(h)
+                b[k] = v
+                yield f"7z:header-byte-{k}-set-{v:02x}", _7z_wrap(bytes(b), body)
+
+
+_BATCH = r"""
+import sys, io, importlib, json, resource
+try:
+    resource.setrlimit(resource.RLIMIT_AS, (3 << 30, 3 << 30))      # hostile counts must not eat the machine: MemoryError instead
+except Exception:
+    pass
+sys.path.insert(0, sys.argv[1])
+import logging; logging.disable(logging.CRITICAL)
+f = getattr(importlib.import_module(sys.argv[2]), sys.argv[3])
+cases = json.load(open(sys.argv[4]))
+first = int(sys.argv[6])
+for i, (label, hx) in enumerate(cases):
+    if i < first:
+        continue
+    print("START", i, flush=True)
+    try:
+        for _ in f(io.BytesIO(bytes.fromhex(hx)), sys.argv[5]):
+            pass
+    except Exception:
+        pass
+print("DONE", flush=True)
+"""
+
+
+def batch_probe(repo, modpath, fn, path_arg, cases, single_timeout=30, per_case=0.05):
+    """Many small inputs through one extractor in ONE child process (the import cost is paid once); when the batch does not finish,
+    the input it stopped at is confirmed alone under a hard timeout.  -> finding | None"""
+    import json
+    import subprocess
+    import sys
+    import tempfile
+    cases = list(cases)
+    with tempfile.TemporaryDirectory() as d:
+        cp = os.path.join(d, "cases.json")
+        json.dump([(l, b.hex()) for (l, b) in cases], open(cp, "w"))
+        first = 0
+        while first < len(cases):
+            budget = 20 + per_case * (len(cases) - first)
+            try:
+                p = subprocess.run([sys.executable, "-c", _BATCH, repo, modpath, fn, cp, path_arg, str(first)], timeout=budget, capture_output=True, text=True, cwd=repo)
+                out, finished = p.stdout, True
+            except subprocess.TimeoutExpired as e:
+                out = e.stdout.decode() if isinstance(e.stdout, bytes) else (e.stdout or "")
+                finished = False
+            started = [int(l.split()[1]) for l in out.splitlines() if l.startswith("START ")]
+            if finished and "DONE" in out:
+                return None
+            if not started:
+                return None          # the child did not even start (import failure): nothing to report here
+            i = started[-1]
+            label, data = cases[i]
+            if not finished:
+                one = os.path.join(d, "one.json")
+                json.dump([(label, data.hex())], open(one, "w"))
+                try:
+                    subprocess.run([sys.executable, "-c", _BATCH, repo, modpath, fn, one, path_arg, "0"], timeout=single_timeout, capture_output=True, cwd=repo)
+                except subprocess.TimeoutExpired:
+                    return {"reproduced": True, "target": f"{modpath}.{fn}", "inputs": {"case": label, "as": path_arg, "bytes": len(data), "hex": data.hex()[:400]},
+                            "expected": "terminates (extraction results or an ExtractionError)",
+                            "observed": f"no result within {single_timeout} s (child process killed)"}
+            first = i + 1            # crashed (e.g. killed by the memory limit) or merely slow: go on behind it
+    return None
+
+
+def sevenzip_probe(repo):
+    from sharepoint2text.parsing import router
+    ent = router._EXTRACTOR_REGISTRY.get("7z")
+    if not ent:
+        return None
+    return batch_probe(repo, ent[0], ent[1], "x.7z", sevenzip_cases())
+
+
+# ------------------------------ directed corpus: fixture mutants through the extractors that reach a file --
+def reaching_extractors(repo, fname):
+    """registry entries (key, module, function) whose module imports -- transitively, inside the package -- the module stored in
+    a file called `fname` (e.g. sevenzip.py -> the archive extractor)"""
+    import ast
+    mods = {}
+    for path in glob.glob(os.path.join(repo, "sharepoint2text", "**", "*.py"), recursive=True):
+        if os.sep + "tests" + os.sep in path:
+            continue
+        rel = os.path.relpath(path, repo)[:-3].replace(os.sep, ".")
+        if rel.endswith(".__init__"):
+            rel = rel[: -len(".__init__")]
+        mods[rel] = path
+    edges = {}
+    for m, path in mods.items():
+        out = set()
+        try:
+            tree = ast.parse(open(path).read())
+        except Exception:  # noqa
+            tree = None
+        for n in (ast.walk(tree) if tree is not None else ()):
+            if isinstance(n, ast.Import):
+                for a in n.names:
+                    out.add(a.name)
+            elif isinstance(n, ast.ImportFrom):
+                base = n.module or ""
+                if n.level:
+                    pkg = m.split(".") if path.endswith("__init__.py") else m.split(".")[:-1]
+                    pkg = pkg[: len(pkg) - (n.level - 1)]
+                    base = ".".join(pkg + ([n.module] if n.module else []))
+                out.add(base)
+                for a in n.names:
+                    out.add(base + "." + a.name)
+        edges[m] = {x for x in out if x in mods}
+    targets = {m for m, path in mods.items() if os.path.basename(path) == fname}
+    if not targets:
+        return []
+    from sharepoint2text.parsing import router
+
+    def reaches(m):
+        seen, todo = set(), [m]
+        while todo:
+            x = todo.pop()
+            if x in targets:
+                return True
+            if x in seen:
+                continue
+            seen.add(x)
+            todo.extend(edges.get(x, ()))
+        return False
+    out = []
+    for k, (modpath, fn) in router._EXTRACTOR_REGISTRY.items():
+        if reaches(modpath):
+            out.append((k, modpath, fn))
+    return out
+
+
+def fixture_mutants(repo, key, seed=0, per_fixture=70):
+    """(label, bytes): the smallest fixtures with extension `key`, whole / truncated at many points / bit flips / header bytes overwritten"""
+    rnd = random.Random(seed * 7919 + sum(map(ord, key)))
+    files = [f for f in glob.glob(os.path.join(repo, "sharepoint2text/tests/resources/**/*." + key), recursive=True)
+             if os.path.isfile(f) and 20 <= os.path.getsize(f) < 150_000 and "password" not in f]
+    for f in sorted(files, key=os.path.getsize)[:2]:
+        data = open(f, "rb").read()
+        name = os.path.basename(f)
+        yield f"whole:{name}", data
+        cuts = sorted({len(data) * i // 16 for i in range(1, 16)} | {len(data) - 1, len(data) - 2, len(data) - 10, len(data) - 100})
+        for c in cuts:
+            if 0 < c < len(data):
+                yield f"truncated-at-{c}:{name}", data[:c]
+        n = 0
+        while n < per_fixture:
+            b = bytearray(data)
+            kind = n % 3
+            if kind == 0:
+                for _ in range(1 + n % 8):
+                    b[rnd.randrange(len(b))] ^= 1 << rnd.randrange(8)
+            elif kind == 1:
+                lim = min(len(b), 1024)
+                for _ in range(1 + n % 4):
+                    b[rnd.randrange(lim)] = rnd.choice((0x00, 0xFF, 0x7F, 0x80, 0x01))
+            else:
+                i = rnd.randrange(len(b))
+                j = min(len(b), i + rnd.choice((1, 2, 4, 8, 64)))
+                b[i:j] = bytes([rnd.choice((0x00, 0xFF))]) * (j - i)
+            n += 1
+            yield f"mutant-{n}:{name}", bytes(b)
+
+
+def directed_probe(repo, fname, seed, budget=240.0):
+    """hang search for a `decreases#` obligation of file `fname`: fixture mutants through every extractor that reaches the file"""
+    import time
+    t0 = time.time()
+    done = set()
+    for k, modpath, fn in reaching_extractors(repo, fname):
+        if time.time() - t0 > budget:
+            break
+        cases = list(fixture_mutants(repo, k, seed))
+        if not cases or (modpath, fn, cases[0][1][:64]) in done:
+            continue
+        done.add((modpath, fn, cases[0][1][:64]))
+        r = batch_probe(repo, modpath, fn, f"x.{k}", cases, per_case=2.0)
+        if r is not None:
+            return r
+    return None
+
+
 def hang_probe(repo, seed):
     """Hostile inputs through the extractors in CHILD processes with a hard timeout: a SIGALRM handler is not a reliable way out of
     a spinning loop (observed: CPython 3.12 did not run the handler in a `while` loop that `continue`s from an except block)."""
@@ -137,7 +403,7 @@ def hang_probe(repo, seed):
     import sys
     import tempfile
     from sharepoint2text.parsing import router
-    cases = [(l, b) for (l, b) in inputs(seed, repo) if l.startswith(("rtf:", "zip:", "mbox:", "tar", "empty", "garbage"))]
+    cases = [(l, b) for (l, b) in inputs(seed, repo) if l.startswith(("rtf:", "zip:", "mbox:", "eml:", "tar", "empty", "garbage"))]
     code = ("import sys, io, importlib\n"
             "sys.path.insert(0, sys.argv[1])\n"
             "import logging; logging.disable(logging.CRITICAL)\n"
@@ -155,7 +421,7 @@ def hang_probe(repo, seed):
             for k, (modpath, fn) in router._EXTRACTOR_REGISTRY.items():
                 if (modpath, fn) in seen and kind in ("empty", "garbage"):
                     continue
-                if kind in ("rtf", "zip", "mbox") and not k.startswith(kind[:3]):
+                if kind in ("rtf", "zip", "mbox", "eml") and not k.startswith(kind[:3]):
                     continue
                 if kind.startswith("tar") and k not in ("tar", "tgz", "txz", "gz"):
                     continue
@@ -171,15 +437,215 @@ def hang_probe(repo, seed):
     return None
 
 
+def fresh_cli_cases(repo):
+    yield "g.pdf", b"garbage not a pdf", []
+    pdfs = sorted(glob.glob(os.path.join(repo, "sharepoint2text/tests/resources/pdf/*.pdf")), key=os.path.getsize)
+    for f in pdfs[:2]:
+        data = open(f, "rb").read()
+        yield "truncated_middle.pdf", data[: len(data) // 2], []
+        yield "truncated_before_eof.pdf", data[: len(data) - 10], ["--json"]
+    junk = b"garbage \x00\xff" * 40
+    for ext in ("doc", "xls", "ppt", "msg", "docx", "xlsx", "eml", "mbox", "html", "rtf", "zip", "7z", "epub", "odt"):
+        yield f"junk.{ext}", junk, []
+
+
+def fresh_cli(repo, budget=90.0):
+    """-> (finding | None, number of runs): `python -m sharepoint2text.cli <file>` per case in a fresh interpreter"""
+    import subprocess
+    import sys
+    import tempfile
+    import time
+    n = 0
+    t0 = time.time()
+    env = dict(os.environ, PYTHONPATH=repo + os.pathsep + os.environ.get("PYTHONPATH", ""))
+    with tempfile.TemporaryDirectory() as d:
+        for name, data, flags in fresh_cli_cases(repo):
+            if time.time() - t0 > budget:
+                break
+            g = os.path.join(d, name)
+            with open(g, "wb") as fh:
+                fh.write(data)
+            try:
+                p = subprocess.run([sys.executable, "-m", "sharepoint2text.cli", g] + flags, capture_output=True, text=True, cwd=repo, timeout=120, env=env)
+            except subprocess.TimeoutExpired:
+                return ({"reproduced": True, "target": "sharepoint2text/cli.py::main", "inputs": {"argv": [name] + flags, "content_hex_prefix": data[:48].hex(), "bytes": len(data)},
+                         "expected": "terminates", "observed": "no exit within 120 s"}, n + 1)
+            n += 1
+            ok = (p.returncode == 0 and p.stdout) or (p.returncode == 1 and p.stdout == "" and p.stderr.count("\n") == 1)
+            if not ok:
+                return ({"reproduced": True, "target": "sharepoint2text/cli.py::main",
+                         "inputs": {"argv": [name] + flags, "content_hex_prefix": data[:48].hex(), "bytes": len(data), "process": "fresh interpreter, logging unconfigured"},
+                         "expected": "exit 0 with output, or exit 1 with empty stdout and exactly one stderr line",
+                         "observed": f"exit={p.returncode} stdout_bytes={len(p.stdout)} stderr_lines={p.stderr.count(chr(10))} stderr={p.stderr[:300]!r}"}, n)
+    return (None, n)
+
+
+def _child(code, argv, timeout, repo):
+    """run `code` in a fresh interpreter on the tree under test; -> 'hang' | 'ok' | 'error: ...'"""
+    import subprocess
+    import sys
+    try:
+        p = subprocess.run([sys.executable, "-c", code] + argv, timeout=timeout, capture_output=True, text=True, cwd=repo)
+    except subprocess.TimeoutExpired:
+        return "hang"
+    return "ok" if p.returncode == 0 else "error: " + (p.stderr or "")[-300:]
+
+
+_RX_PATTERN = r"""
+import sys, json, importlib, re
+sys.path.insert(0, sys.argv[1])
+import logging; logging.disable(logging.CRITICAL)
+h = json.load(open(sys.argv[2]))
+text = h["text"].encode("latin-1", "replace") if h["bytes"] else h["text"]
+rx = None
+if h.get("name"):
+    rx = getattr(importlib.import_module(h["module"]), h["name"], None)
+if not isinstance(rx, re.Pattern):
+    rx = re.compile(h["pattern"].encode("latin-1") if h["bytes"] else h["pattern"], h["flags"])
+if h["mode"] == "search":
+    for _ in rx.finditer(text):
+        pass
+elif h["mode"] == "match":
+    rx.match(text)
+else:
+    rx.fullmatch(text)
+"""
+
+_RX_FUNCTION = r"""
+import sys, json, importlib, inspect
+sys.path.insert(0, sys.argv[1])
+import logging; logging.disable(logging.CRITICAL)
+h = json.load(open(sys.argv[2]))
+obj = importlib.import_module(h["module"])
+for part in h["qualname"].split("."):
+    obj = getattr(obj, part)
+arg = h["text"].encode("latin-1", "replace") if h["as_bytes"] else h["text"]
+try:
+    r = obj(arg)
+    if inspect.isgenerator(r):
+        for _ in r:
+            pass
+except Exception:
+    pass
+"""
+
+_RX_EXTRACTOR = r"""
+import sys, io, importlib
+sys.path.insert(0, sys.argv[1])
+import logging; logging.disable(logging.CRITICAL)
+f = getattr(importlib.import_module(sys.argv[2]), sys.argv[3])
+data = open(sys.argv[4], 'rb').read()
+try:
+    for _ in f(io.BytesIO(data), sys.argv[5]):
+        pass
+except Exception:
+    pass
+"""
+
+
+def regex_probe(h, repo):
+    """Replay of a `regex-eda-pump` obligation: the pumping text of the static witness, lengthened so that an exponential matcher
+    cannot finish, (1) on the REAL compiled pattern object of the module, then (2) through the registered extractors of that module
+    (raw text and format shells around it), then (3) through the module's functions that take one str / bytes argument and use the
+    pattern -- each in a child process with a hard timeout.  Only (2) or (3) count as a reproduced failing input."""
+    import ast
+    import json
+    import tempfile
+    modname = h["file"][:-3].replace("/", ".")
+    k = int(h["k"]) + 14
+    text = h["prefix"] + h["pump"] * k + h["suffix"]
+    with tempfile.TemporaryDirectory() as d:
+        hp = os.path.join(d, "hint.json")
+        json.dump(dict(h, module=modname, text=text), open(hp, "w"))
+        r = _child(_RX_PATTERN, [repo, hp], 12, repo)
+        if r != "hang":
+            return {"reproduced": False, "note": f"pumping {h['pattern']!r:.80} with k={k} natively: {r}"}
+        raw = text.encode("latin-1", "replace") if h["bytes"] else text.encode("utf-8")
+        # (2) extractors registered from this module
+        from sharepoint2text.parsing import router
+        exts = [(kk, fn) for kk, (mp, fn) in router._EXTRACTOR_REGISTRY.items() if mp == modname]
+        seen_fn = set()
+        shells = [("raw", raw), ("line", b"\n" + raw + b"\n"), ("rtf", b"{\\rtf1\\ansi " + raw + b"}"),
+                  ("html", b"<html><body><p>" + raw + b"</p></body></html>"),
+                  ("mail", b"From: a@b.c\nTo: d@e.f\nSubject: s\n\n" + raw + b"\n")]
+        for kk, fn in exts:
+            if fn in seen_fn:
+                continue
+            seen_fn.add(fn)
+            fixtures = sorted(glob.glob(os.path.join(repo, f"sharepoint2text/tests/resources/*/*.{kk}")), key=os.path.getsize)[:1]
+            cases = list(shells) + [("after-fixture:" + os.path.basename(f), open(f, "rb").read() + b"\n" + raw + b"\n") for f in fixtures
+                                    if os.path.getsize(f) < 200_000]
+            for label, data in cases:
+                pth = os.path.join(d, "in.bin")
+                with open(pth, "wb") as fh:
+                    fh.write(data)
+                if _child(_RX_EXTRACTOR, [repo, modname, fn, pth, f"x.{kk}"], 40, repo) == "hang":
+                    return {"reproduced": True, "target": f"{modname}.{fn}",
+                            "inputs": {"shell": label, "as": kk, "bytes": len(data), "content": data[:160].decode("latin-1"),
+                                       "pattern": h["pattern"], "line": h["line"], "pump": h["pump"], "times": k},
+                            "expected": "terminates (extraction results or an ExtractionError)",
+                            "observed": f"no result within 40 s (child process killed): exponential backtracking of the pattern at {h['file']}:{h['line']}"}
+        # (3) functions of the module that use the pattern and take a single str / bytes argument
+        try:
+            tree = ast.parse(open(os.path.join(repo, h["file"])).read())
+        except Exception:  # noqa
+            tree = None
+        cands = []
+        if tree is not None:
+            def visit(node, prefix):
+                for ch in ast.iter_child_nodes(node):
+                    if isinstance(ch, ast.ClassDef):
+                        continue          # methods need an instance: covered by the extractor level
+                    if isinstance(ch, (ast.FunctionDef,)):
+                        uses = any((isinstance(n, ast.Name) and n.id == h.get("name")) or (getattr(n, "lineno", None) == h["line"] and isinstance(n, ast.Call))
+                                   for n in ast.walk(ch))
+                        req = [a for a in ch.args.args[: len(ch.args.args) - len(ch.args.defaults)]]
+                        if uses and len(req) == 1 and not ch.args.kwonlyargs:
+                            ann = ast.unparse(req[0].annotation) if req[0].annotation is not None else ""
+                            cands.append((prefix + ch.name, ann))
+            visit(tree, "")
+        for q, ann in cands:
+            for as_bytes in ([True] if "bytes" in ann else [False] if "str" in ann else [h["bytes"], not h["bytes"]]):
+                json.dump({"module": modname, "qualname": q, "text": text, "as_bytes": as_bytes}, open(hp, "w"))
+                if _child(_RX_FUNCTION, [repo, hp], 30, repo) == "hang":
+                    return {"reproduced": True, "target": f"{modname}.{q}",
+                            "inputs": {"argument": ("bytes " if as_bytes else "str ") + repr(text[:120]), "length": len(text), "pattern": h["pattern"], "line": h["line"]},
+                            "expected": "terminates", "observed": "no return within 30 s (child process killed): exponential backtracking"}
+    return {"reproduced": False, "note": f"the compiled pattern hangs on {len(text)} characters, but no extractor / function of {modname} was driven into it"}
+
+
 def find(req):
     repo = os.environ.get("VERIF_REPO", "/repo")
+    hint = req.get("extra") or {}
+    if isinstance(hint, dict) and hint.get("family") == "regex":
+        return regex_probe(hint, repo)
+    if "/decreases#regex-" in (req.get("obligation") or ""):
+        return {"reproduced": False, "note": "no pumping text (pattern not read by the static analysis)"}
     if "/decreases#" in (req.get("obligation") or ""):
         r = hang_search(req["obligation"], repo)
         if r is not None and r.get("reproduced"):
             return r
+        ob = req["obligation"]
+        archive_first = any(w in ob for w in ("sevenzip", "archive", "7z"))
+        if archive_first:
+            r = sevenzip_probe(repo)
+            if r is not None:
+                return r
+        try:
+            fname = ob.split("/", 1)[1].split("::")[0]
+        except Exception:  # noqa
+            fname = ""
+        if fname.endswith(".py"):
+            r = directed_probe(repo, fname, int(os.environ.get("VERIF_SEED", "0") or 0))
+            if r is not None:
+                return r
         r = hang_probe(repo, int(os.environ.get("VERIF_SEED", "0") or 0))
         if r is not None:
             return r
+        if not archive_first:
+            r = sevenzip_probe(repo)
+            if r is not None:
+                return r
     from sharepoint2text.parsing import router
     from sharepoint2text.parsing.exceptions import ExtractionError
     import importlib
@@ -197,31 +663,31 @@ def find(req):
             for k, f in extractors:
                 if target_fn and "::read_" in target_fn and f.__name__ not in target_fn:
                     continue
-                tried += 1
-                signal.alarm(20)
-                bio = io.BytesIO(data)
-                try:
-                    for _ in f(bio, f"x.{k}"):
+                for with_path in (True, False):      # path is optional: the documented call without a path is a call form of its own
+                    tried += 1
+                    signal.alarm(20)
+                    bio = io.BytesIO(data)
+                    try:
+                        for _ in (f(bio, f"x.{k}") if with_path else f(bio)):
+                            pass
+                        if bio.closed:
+                            signal.alarm(0)
+                            return {"reproduced": True, "target": f"{f.__module__}.{f.__name__}", "inputs": {"case": label, "as": k},
+                                    "expected": "the caller's stream is left open (callers rewind it afterwards: e-mail attachments, archive members)",
+                                    "observed": "file_like.closed is True after the results were consumed"}
+                    except ExtractionError:
                         pass
-                    for _ in f(io.BytesIO(data)):          # path is optional: the documented call without a path
-                        pass
-                    if bio.closed:
+                    except _Timeout:
                         signal.alarm(0)
-                        return {"reproduced": True, "target": f"{f.__module__}.{f.__name__}", "inputs": {"case": label, "as": k},
-                                "expected": "the caller's stream is left open (callers rewind it afterwards: e-mail attachments, archive members)",
-                                "observed": "file_like.closed is True after the results were consumed"}
-                except ExtractionError:
-                    pass
-                except _Timeout:
-                    signal.alarm(0)
-                    return {"reproduced": True, "target": f.__name__, "inputs": {"case": label, "as": k}, "expected": "terminates",
-                            "observed": "no result within 20 s"}
-                except Exception as e:  # noqa
-                    signal.alarm(0)
-                    return {"reproduced": True, "target": f"{f.__module__}.{f.__name__}", "inputs": {"case": label, "as": k, "bytes_hex_prefix": data[:64].hex()},
-                            "expected": "ExtractionError family", "observed": f"{type(e).__name__}: {str(e)[:120]}"}
-                finally:
-                    signal.alarm(0)
+                        return {"reproduced": True, "target": f.__name__, "inputs": {"case": label, "as": k}, "expected": "terminates",
+                                "observed": "no result within 20 s"}
+                    except Exception as e:  # noqa
+                        signal.alarm(0)
+                        return {"reproduced": True, "target": f"{f.__module__}.{f.__name__}",
+                                "inputs": {"case": label, "as": k, "call": "f(stream, path)" if with_path else "f(stream)  # no path", "bytes_hex_prefix": data[:64].hex()},
+                                "expected": "ExtractionError family", "observed": f"{type(e).__name__}: {str(e)[:120]}"}
+                    finally:
+                        signal.alarm(0)
     # read_file on real files: extractor results or the ExtractionError family (an input that yields nothing yields nothing)
     import tempfile
     import sharepoint2text
@@ -287,17 +753,13 @@ def find(req):
                 return {"reproduced": True, "target": "sharepoint2text/cli.py::main", "inputs": {"argv": [os.path.basename(a) for a in argv]},
                         "expected": "exit 0 with output, or exit 1 with empty stdout and one stderr line",
                         "observed": f"exit={rc} stdout_bytes={len(o)} stderr_lines={e.count(chr(10))}"}
-    # in a fresh process (logging unconfigured): a failing input gives exactly one stderr line
-    import subprocess
-    import sys
-    with tempfile.TemporaryDirectory() as d:
-        g = os.path.join(d, "g.pdf")
-        open(g, "wb").write(b"garbage not a pdf")
-        p = subprocess.run([sys.executable, "-m", "sharepoint2text.cli", g], capture_output=True, text=True, cwd=repo, timeout=120)
-        tried += 1
-        if not (p.returncode == 1 and p.stdout == "" and p.stderr.count("\n") == 1):
-            return {"reproduced": True, "target": "sharepoint2text/cli.py::main", "inputs": {"argv": ["g.pdf"], "content": "garbage not a pdf"},
-                    "expected": "exit 1, empty stdout, one stderr line", "observed": f"exit={p.returncode} stdout_bytes={len(p.stdout)} stderr_lines={p.stderr.count(chr(10))}"}
+    # in a fresh process (logging unconfigured, as for the console script): a failing input gives exactly one stderr line.
+    # Inputs on which third-party parsers LOG before the extraction fails (pypdf: truncated / garbage PDF; olefile, openpyxl,
+    # mail parsers: garbage routed to them) -- any record that finds no handler up to the root logger is printed by logging.lastResort
+    r = fresh_cli(repo)
+    tried += r[1]
+    if r[0] is not None:
+        return r[0]
     return {"reproduced": False, "note": f"{tried} native cases within the ExtractionError family / CLI contract"}
 
 
